@@ -76,7 +76,7 @@ Print Assumptions C40_oracle_sound.
 (* non-vacuity: a pipeline with a failing middle stage and a redirected form
    runs to an exception in the model, with the ledger balanced *)
 Example C40_example :
-  observe40 [Some [120%N; 10%N]]
+  observe40 false [Some [120%N; 10%N]]
     [SPipe [([], [SEcho [97%N]]); ([], [SFail]); ([], [SNop])];
      SForm [mkRedir None MWrite (SFile 1)] [SCapture [SEcho [98%N]; SFail]]]
   = Some (mkMobs OExc 0 0 4 2).
